@@ -232,6 +232,13 @@ func (e *Engine) assume(st *State, t *Term) {
 	if t.IsTrue() {
 		return
 	}
+	if t.Op == "and" {
+		// conjuncts are asserted one by one (smaller assertions, better sharing and pruning)
+		for _, a := range t.Args {
+			e.assume(st, a)
+		}
+		return
+	}
 	if st.pcSeen[t.ID] {
 		return
 	}
